@@ -595,6 +595,13 @@ func (c *CoreRun) exec(l map[string]any) string {
 		if c.r.S.Parked()[t] != "md.Save" {
 			return t + " is not in metadata.Save"
 		}
+		if c.diverged && rel == nil {
+			// a store that answers "saved" has stored what it was handed: in a run that left the specification the schedule's
+			// StoreWrite steps need not match what this Save call carries
+			for _, vb := range c.r.Meta.DirtyOf(t) {
+				c.r.Meta.Write(t, vb)
+			}
+		}
 		c.r.S.Release(t, rel)
 	case "SaveRemark":
 		t := str(l["t"])
@@ -859,6 +866,9 @@ func (c *CoreRun) drain() {
 			}
 		}
 	}
+	// what was released may be about to end the process (a panic on a goroutine of the library): a run is only called quiescent
+	// after it has stayed quiet for a good while - under load a goroutine can take its time
+	c.r.S.Settle(400*time.Millisecond, 3*time.Second)
 	if st := c.r.Stream(); st != nil && c.up && st.IsOpen() && !c.r.S.IsDone("main") {
 		r := c.r
 		r.S.Go("z", func() {
